@@ -63,6 +63,11 @@ class Prop:
     sizes = {"quick": 300, "thorough": 6000}
     rule = ""
     assumptions = []
+    engine = "hypothesis"
+    technique = "property-based testing (Hypothesis) against an explicit oracle"
+    level_text = ""       # MANIFEST level_claimed.text (defaults to rule)
+    level_note = ""       # MANIFEST level_note (defaults to the assumptions)
+    design_ref = ""
     flaky_ok = False      # True for properties whose violations are inherently schedule dependent (OS threads)
     max_workers = 14
 
@@ -136,6 +141,144 @@ def run(cmd, stdin=None, cpu=30, wall=300, env=None, cwd=None, mem_gb=8):
     cpu_exceeded = (not wall_exceeded) and p.returncode in (-signal.SIGXCPU, -signal.SIGKILL)
     return RunResult(p.returncode, out.decode("utf-8", "replace"), err.decode("utf-8", "replace"),
                      cpu_exceeded, wall_exceeded)
+
+
+# ---------------------------------------------------------------------------------------------
+# Fork-server drivers (drivers/forkserver.hpp): one persistent process per (worker, driver); each case is a fork.
+
+import atexit
+import select
+import time as _time
+
+_SERVERS = {}
+
+
+class Server:
+    def __init__(self, cmd, env=None, cwd=None):
+        self.cmd = list(cmd)
+        self.env = env
+        self.cwd = cwd
+        self.p = None
+        self.errpath = None
+        self.buf = b""
+
+    def start(self):
+        base = os.environ.get("VF_TMP") or os.path.join("/verif", "build", "tmp")
+        os.makedirs(base, exist_ok=True)
+        fd, self.errpath = tempfile.mkstemp(suffix=".err", dir=base)
+        os.close(fd)
+        self.p = subprocess.Popen(self.cmd + ["--serve", self.errpath], stdin=subprocess.PIPE, stdout=subprocess.PIPE,
+                                  stderr=subprocess.DEVNULL, env=self.env, cwd=self.cwd, start_new_session=True)
+        self.buf = b""
+
+    def stop(self):
+        if self.p is not None:
+            try:
+                os.killpg(self.p.pid, signal.SIGKILL)
+            except (ProcessLookupError, PermissionError):
+                pass
+            try:
+                self.p.stdin.close()
+                self.p.stdout.close()
+            except Exception:
+                pass
+            self.p.wait()
+            self.p = None
+        if self.errpath:
+            try:
+                os.unlink(self.errpath)
+            except OSError:
+                pass
+            self.errpath = None
+
+    def _read_err(self):
+        try:
+            with open(self.errpath, "rb") as f:
+                f.seek(0, 2)
+                n = f.tell()
+                f.seek(max(0, n - 200000))
+                return f.read().decode("utf-8", "replace")
+        except OSError:
+            return ""
+
+    def request(self, text, cpu=30, wall=300):
+        """Run one case.  `text` must not contain a newline."""
+        if "\n" in text:
+            text = text.replace("\n", " ")
+        for attempt in (0, 1):
+            if self.p is None or self.p.poll() is not None:
+                self.stop()
+                self.start()
+            try:
+                self.p.stdin.write(("%d %s\n" % (cpu, text)).encode())
+                self.p.stdin.flush()
+                break
+            except (BrokenPipeError, OSError):
+                self.stop()
+                if attempt:
+                    raise
+        deadline = _time.time() + wall
+        fd = self.p.stdout.fileno()
+        acc = bytearray(self.buf)
+        self.buf = b""
+        scan = 0
+        while True:
+            i = acc.find(b"\n@@END ", scan)
+            if i >= 0:
+                j = acc.find(b"\n", i + 1)
+                if j >= 0:
+                    break
+                scan = i
+            else:
+                scan = max(0, len(acc) - 16)
+            left = deadline - _time.time()
+            if left <= 0:
+                self.stop()
+                return RunResult(-9, bytes(acc).decode("utf-8", "replace"), "", False, True)
+            r, _, _ = select.select([fd], [], [], min(left, 5.0))
+            if not r:
+                continue
+            data = os.read(fd, 1 << 16)
+            if not data:   # server died
+                err = self._read_err()
+                self.stop()
+                return RunResult(-6, bytes(acc).decode("utf-8", "replace"), err + "\n[fork server died]", False, False)
+            acc += data
+        out = bytes(acc)
+        self.buf = out[j + 1:]
+        body = out[:i]
+        st = out[i + 7:j].split()
+        body = out[:i]
+        status, sig, ms = int(st[0]), int(st[1]), int(st[2])
+        rc = -sig if sig else status
+        res = RunResult(rc, body.decode("utf-8", "replace"), self._read_err(), sig in (signal.SIGXCPU, signal.SIGKILL), False)
+        res.cpu_ms = ms
+        return res
+
+
+def server(name, cmd=None, env=None, cwd=None):
+    """Per-process cache of fork servers.  `name` is a driver name (then cmd defaults to the built driver)."""
+    s = _SERVERS.get(name)
+    if s is None:
+        from . import build
+        s = Server(cmd or [build.drv(name)], env=env or build.runtime_env(), cwd=cwd)
+        _SERVERS[name] = s
+    return s
+
+
+def serve(name, case, cpu=30, wall=300):
+    """Run `case` (a JSON-serialisable value or a string) on the fork server of driver `name`."""
+    text = case if isinstance(case, str) else json.dumps(case, separators=(",", ":"))
+    return server(name).request(text, cpu=cpu, wall=wall)
+
+
+@atexit.register
+def _stop_servers():
+    for s in _SERVERS.values():
+        try:
+            s.stop()
+        except Exception:
+            pass
 
 
 def tmpdir():
